@@ -180,8 +180,12 @@ static int repair_step(struct snapraid_state* state, int rehash, unsigned pos, u
 	error = 0;
 
 	/* setup vector of failed disk indexes */
-	for (i = 0; i < failed_count; ++i)
-		id[i] = failed[failed_map[i]].index;
+	/* with more failures than parities nothing can be recovered, */
+	/* and the indexes may not even fit in the vector */
+	if (failed_count <= n) {
+		for (i = 0; i < failed_count; ++i)
+			id[i] = failed[failed_map[i]].index;
+	}
 
 	/* check if there is at least a failed block that can be checked for correctness using the hash */
 	/* if there isn't, we have to sacrifice a parity block to check that the result is correct */
